@@ -29,7 +29,9 @@ import (
 	"verif/harness/mon/snap"
 )
 
-var mode = flag.String("mode", "all", "all | race | firstuse")
+var propID = flag.String("prop", "C18", "property id the results are reported under (the first-operation stage is also registered for C02)")
+
+var mode = flag.String("mode", "all", "all | race | firstuse | firstops (children: dumpte, firstop)")
 
 type curveRun struct {
 	name string
@@ -363,9 +365,22 @@ func poolHistory(c *mon.Ctx, w *world, N string, newPool func(sizes ...int) pool
 }
 
 func main() {
-	c := mon.Init("C18")
+	if !flag.Parsed() {
+		flag.Parse()
+	}
+	switch *mode {
+	case "dumpte":
+		dumpTE()
+	case "firstop":
+		firstOpChild()
+	}
+	c := mon.Init(*propID)
 	if *mode == "firstuse" {
 		firstUse(c)
+		c.Finish()
+	}
+	if *mode == "firstops" {
+		firstOps(c)
 		c.Finish()
 	}
 	w := &world{c: c, race: *mode == "race", procs: []int{1, 2, 3, 8, 16}, rng: gen.New(c.Seed, "c18")}
